@@ -120,6 +120,350 @@ def judge_tax(doc, t, py):
     return bad
 
 
+# ---------------------------------------------------------------------------------------------
+# carried tax summaries: preceding[].tax (invoice / order / delivery), payment lines[].document.tax, the payment's
+# merged tax, the copy made by Invoice.Correct(copy_tax). They go through tax.Total.Calculate every time the
+# carrying document is calculated; the clauses of the property are judged on what comes out.
+# ---------------------------------------------------------------------------------------------
+def _fa(s):
+    return None if s is None else Fraction(s)
+
+
+def _fp(s):
+    if s is None:
+        return None
+    return Fraction(s[:-1]) / 100 if s.endswith("%") else Fraction(s)
+
+
+def _d(x):
+    """a fraction as decimal text (6 places are enough for every currency here)"""
+    return "None" if x is None else ("%.6f" % float(x)).rstrip("0").rstrip(".")
+
+
+def judge_summary(tt, c, exact, k=1):
+    """clauses of C02 on a serialised tax summary (JSON of tax.Total) presented in a currency with c decimals;
+    exact: currency rounding rule; k: number of calculated summaries merged into this one (payment tax)."""
+    unit = Fraction(1, 10 ** c)
+    bad = []
+    tsum = Z
+    cats = tt.get("categories") or []
+    for ct in cats:
+        cat = ct.get("code")
+        ra, rs, anysur = Z, Z, False
+        rates = ct.get("rates") or []
+        for g in rates:
+            pct, base, am = _fp(g.get("percent")), _fa(g.get("base")) or Z, _fa(g.get("amount")) or Z
+            sur = g.get("surcharge")
+            if pct is None:
+                if am != 0:
+                    bad.append(("exempt groups have no amount", "%s: %s" % (cat, _d(am))))
+                continue
+            if abs(am - pct * base) > k * (unit / 2 + abs(pct) * unit / 2 + unit / 10):
+                bad.append(("each group's amount is its percentage of its base", "%s: %s vs %s x %s" % (cat, _d(am), _d(pct), _d(base))))
+            if sur is not None:
+                anysur = True
+                sp, sam = _fp(sur.get("percent")) or Z, _fa(sur.get("amount")) or Z
+                if abs(sam - sp * base) > k * (unit / 2 + abs(sp) * unit / 2 + unit / 10):
+                    bad.append(("surcharge amount is the surcharge percentage of the base", "%s: %s vs %s x %s" % (cat, _d(sam), _d(sp), _d(base))))
+                rs += sam
+            ra += am
+        n = max(1, len(rates))
+        camt, csur = _fa(ct.get("amount")) or Z, _fa(ct.get("surcharge"))
+        if abs(camt - ra) > (Z if exact else k * unit * n / 2):
+            bad.append(("a category's amount is the sum of its groups", "%s: %s vs %s" % (cat, _d(camt), _d(ra))))
+        if anysur and (csur is None or abs(csur - rs) > (Z if exact else k * unit * n / 2)):
+            bad.append(("a category's surcharge is the sum of its groups' surcharges", "%s: %s vs %s" % (cat, _d(csur), _d(rs))))
+        if not anysur and csur:
+            bad.append(("a category's surcharge is the sum of its groups' surcharges", "%s: %s but no group has a surcharge" % (cat, _d(csur))))
+        v = camt + (csur or Z)
+        tsum += -v if ct.get("retained") else v
+    if cats:
+        got = _fa(tt.get("sum")) or Z
+        if abs(got - tsum) > (Z if exact else k * unit * len(cats)):
+            bad.append(("the tax total adds ordinary categories and subtracts retained ones including surcharges", "%s vs %s" % (_d(got), _d(tsum))))
+    return bad
+
+
+VARIANTS = ("verbatim", "verbatim", "verbatim", "derived-removed", "derived-stale", "bases-changed", "surcharge-dropped", "surcharge-added")
+
+
+def summary_variant(rng, tt, kind, c):
+    """A summary as a client may hand it on: verbatim, or with its DERIVED figures (group amounts, surcharge amounts,
+    category amounts and surcharges, sum) missing / stale with respect to bases, percentages and surcharge percentages.
+    Calculate derives every one of them again from the groups' bases and percentages."""
+    import copy
+    t = copy.deepcopy(tt)
+    cats = t.get("categories") or []
+    amt = lambda: cg.fmt(cg.A(rng.randrange(-5000, 900000), c))
+    # reported: tax.Total.Calculate takes a group's percentage at the precision the BASE is written with, so a carried base with
+    # fewer decimals than the currency gives an amount that is not the percentage of the base (EUR, base "33", 21% -> amount "7.00";
+    # base "33.3", surcharge 5.2% -> "1.70"; KWD, base "33.33", 5.2% -> "1.730"). Bases are therefore written with the currency's
+    # decimals or more, never fewer.
+    base = lambda: cg.fmt(cg.A(rng.randrange(-5000, 90000000), c + rng.choice([0, 0, 1, 2])))
+    if kind == "derived-removed":
+        t.pop("sum", None)
+        for ct in cats:
+            ct.pop("amount", None)
+            ct.pop("surcharge", None)
+            for g in ct.get("rates") or []:
+                g.pop("amount", None)
+                if "surcharge" in g:
+                    g["surcharge"].pop("amount", None)
+    elif kind == "derived-stale":
+        t["sum"] = amt()
+        for ct in cats:
+            ct["amount"] = amt()
+            if "surcharge" in ct or rng.random() < 0.3:
+                ct["surcharge"] = amt()
+            for g in ct.get("rates") or []:
+                g["amount"] = amt()
+                if "surcharge" in g:
+                    g["surcharge"]["amount"] = amt()
+    elif kind == "bases-changed":
+        for ct in cats:
+            for g in ct.get("rates") or []:
+                g["base"] = base()
+    elif kind == "surcharge-dropped":
+        for ct in cats:
+            for g in ct.get("rates") or []:
+                if rng.random() < 0.7:
+                    g.pop("surcharge", None)
+    elif kind == "surcharge-added":
+        for ct in cats:
+            for g in ct.get("rates") or []:
+                if g.get("percent") is not None and "surcharge" not in g and rng.random() < 0.6:
+                    g["surcharge"] = {"percent": rng.choice(["5.2%", "1.4%", "0.5%", "1.75%"]), "amount": cg.fmt(cg.A(0, c))}
+    return t
+
+
+def has_surcharge(tt):
+    return any("surcharge" in ct or any("surcharge" in g for g in ct.get("rates") or []) for ct in tt.get("categories") or [])
+
+
+def carried_cases(rng, sources, n_each):
+    """sources: list of (input document, serialised calculated document). Returns wire-ready cases."""
+    import copy
+    cases = []
+    bycur = {}
+    for src in sources:
+        bycur.setdefault(cg.doc_meta(src[0])[1], []).append(src)
+
+    def pick(cur):
+        tt = rng.choice(bycur[cur])[1]["totals"]["taxes"]
+        kind = rng.choice(VARIANTS)
+        return summary_variant(rng, tt, kind, cg.SUBUNITS[cur]), kind
+
+    def ref(i, doc, own_currency=False):
+        """own_currency: the reference states its own currency (one of another precision when there is one), and its summary
+        comes from a document calculated in that currency"""
+        cur = cg.doc_meta(doc)[1]
+        r = {"code": "P-%d" % i, "issue_date": "2022-01-1%d" % i}
+        if own_currency:
+            cur = rng.choice([k for k in bycur if cg.SUBUNITS[k] != cg.SUBUNITS[cur]] or [cur])
+            r["currency"] = cur
+        r["tax"], kind = pick(cur)
+        return r, kind + ("/" + cur if own_currency else "")
+
+    for doc, out in sources[:n_each]:
+        # (1) the document itself (invoice, order or delivery as generated) carrying 1-3 summaries in preceding[]
+        d = copy.deepcopy(cg.strip_notes(doc))
+        kinds = []
+        d["preceding"] = []
+        # reported: bill.calculateOrgDocumentRefs overwrites its currency parameter, so a reference WITHOUT a currency that follows
+        # one WITH a currency is calculated in the earlier reference's currency instead of the document's (EUR order, preceding[0]
+        # currency JPY, preceding[1] none, base "10.50" at 21% -> preceding[1].tax base "11", amount "2"). Once a reference states
+        # its currency, every later one of the same document states one too.
+        stated = False
+        for i in range(rng.choice([1, 1, 2, 3])):
+            stated = stated or rng.random() < 0.2
+            r, kind = ref(i, doc, stated)
+            if i == 0 and not stated and rng.random() < 0.5:
+                r["tax"], kind = copy.deepcopy(out["totals"]["taxes"]), "own"
+            d["preceding"].append(r)
+            kinds.append(kind)
+        cases.append({"op": "carry", "container": d["$schema"].rsplit("/", 1)[1] + ".preceding", "document": d, "rounds": rng.choice([1, 1, 2, 3]), "variants": kinds})
+    for doc, out in sources[:n_each]:
+        # (2) a payment whose lines refer to 1-3 documents with their summaries; the payment's own tax merges them
+        cc, cur, c, rr, date = cg.doc_meta(doc)
+        p = {"$schema": "https://gobl.org/draft-0/bill/payment", "uuid": "3aea7b56-59d8-4beb-90bd-f8f280d852a0", "type": rng.choice(["receipt", "request"]),
+             "code": "R-1", "issue_date": "2022-03-01", "currency": cur, "supplier": copy.deepcopy(doc["supplier"]), "customer": copy.deepcopy(doc["customer"]),
+             "lines": []}
+        kinds = []
+        for i in range(rng.choice([1, 2, 2, 3])):
+            stated = rng.random() < 0.15          # payment lines take each document's own currency independently
+            r, kind = ref(i, doc, stated)
+            if i == 0 and not stated and rng.random() < 0.5:
+                r["tax"], kind = copy.deepcopy(out["totals"]["taxes"]), "own"
+            p["lines"].append({"document": r, rng.choice(["debit", "credit"]): cg.fmt(cg.A(rng.randrange(1, 900000), c))})
+            kinds.append(kind)
+        cases.append({"op": "carry", "container": "payment.lines", "document": p, "rounds": rng.choice([1, 1, 2, 3]), "variants": kinds})
+    for doc, out in sources[:n_each]:
+        # (3) the invoice corrected with copy_tax: preceding[0].tax is the copy of the calculated summary
+        d = copy.deepcopy(cg.strip_notes(doc))
+        d["$schema"] = "https://gobl.org/draft-0/bill/invoice"
+        cases.append({"op": "correct", "container": "invoice.correct(copy_tax)", "document": d, "type": rng.choice(["credit-note", "credit-note", "corrective", "debit-note"]), "variants": ["copy"]})
+    return cases
+
+
+def carried_line(case):
+    if case["op"] == "carry":
+        return "c02 carry %s %d" % (w(json.dumps(case["document"])), case["rounds"])
+    return "c02 correct %s %s" % (w(json.dumps(case["document"])), w(case["type"]))
+
+
+def carried_summaries(case, out):
+    """the carried summaries of a serialised result: (path, summary, decimals of its currency, merged-count)"""
+    found = []
+    cur = out.get("currency") or cg.doc_meta(case["document"])[1]
+    if out.get("$schema", "").endswith("bill/payment"):
+        n = 0
+        mixed = False
+        for i, l in enumerate(out.get("lines") or []):
+            dr = l.get("document") or {}
+            if dr.get("tax") is not None:
+                n += 1
+                mixed = mixed or (dr.get("currency") or cur) != cur
+                found.append(("lines[%d].document.tax" % i, dr["tax"], cg.SUBUNITS[dr.get("currency") or cur], 1))
+        if out.get("tax") is not None and not mixed:    # a merge of summaries in different currencies has no meaning to judge
+            found.append(("tax", out["tax"], cg.SUBUNITS[cur], max(1, n)))
+    else:
+        for i, dr in enumerate(out.get("preceding") or []):
+            if dr.get("tax") is not None:
+                found.append(("preceding[%d].tax" % i, dr["tax"], cg.SUBUNITS[dr.get("currency") or cur], 1))
+    return found
+
+
+def rule_of(case, out):
+    d = case["document"]
+    if out.get("$schema", "").endswith("bill/payment"):
+        return cg.regime(d["supplier"]["tax_id"]["country"]).get("calculator_rounding_rule") or cg.PRECISE
+    return cg.doc_meta(d)[3]
+
+
+def run_carried(cases):
+    """-> list of (case, status, serialised result or None, failures [(path, clause, detail)])"""
+    go = run_go([carried_line(x) for x in cases])
+    res = []
+    for case, g in zip(cases, go):
+        gv = parse_wire(g)
+        if is_err(gv) or not gv or gv[0] != b"ok":
+            res.append((case, (gv[0][1].decode() if is_err(gv) and len(gv[0]) > 1 else "bad-output"), None, [], g))
+            continue
+        out = json.loads(gv[1])
+        exact = rule_of(case, out) == cg.CURRENCY
+        fails = []
+        for path, tt, c, k in carried_summaries(case, out):
+            for clause, detail in judge_summary(tt, c, exact, k):
+                fails.append((path, clause, detail))
+        res.append((case, "ok", out, fails, g))
+    return res
+
+
+def carried_stream(c, main_results, quick):
+    rng = c.rng
+    # sources: calculated documents of the main stream whose summary is worth carrying; those with surcharges first
+    with_sur, others = [], []
+    for r in main_results:
+        if not r["in_domain"] or is_err(r["go"]) or r["go"][0] != b"ok" or not r["go"][1][15]:
+            continue
+        has = any(ct[4] != [] for ct in r["go"][1][15])
+        (with_sur if has else others).append(r["doc"])
+    ns = 350 if quick else 6000
+    srcdocs = with_sur[:ns * 2 // 3] + others[:ns - min(len(with_sur), ns * 2 // 3)]
+    rng.shuffle(srcdocs)
+    go = run_go(["c02 carry %s 1" % w(json.dumps(cg.strip_notes(d))) for d in srcdocs])
+    sources = []
+    for d, g in zip(srcdocs, go):
+        gv = parse_wire(g)
+        if not is_err(gv) and gv and gv[0] == b"ok":
+            out = json.loads(gv[1])
+            if (out.get("totals") or {}).get("taxes"):
+                sources.append((d, out))
+    cases = carried_cases(rng, sources, len(sources))
+    res = run_carried(cases)
+    # a built document built again: the serialised result of a share of the cases goes in as a new input
+    again = []
+    for case, status, out, fails, raw in res:
+        if status == "ok" and not fails and case["op"] == "carry" and rng.random() < 0.5:
+            again.append({"op": "carry", "container": case["container"] + " (result calculated again)", "document": out, "rounds": rng.choice([1, 2]),
+                          "variants": case["variants"]})
+    res += run_carried(again)
+    shown = 0
+    nbad = 0
+    status_counts = {}
+    for case, status, out, fails, raw in res:
+        status_counts[case["container"].split(" ")[0] + ":" + status] = status_counts.get(case["container"].split(" ")[0] + ":" + status, 0) + 1
+        if status != "ok":
+            continue
+        sums = carried_summaries(case, out)
+        nt = any(has_surcharge(tt) or sum(len(ct.get("rates") or []) for ct in tt.get("categories") or []) > 1 for _p, tt, _c, _k in sums)
+        c.count("carried-summary-clauses:" + case["container"], max(1, len(sums)), json.dumps(case["document"], sort_keys=True) if nt else None)
+        if fails:
+            nbad += 1
+            by = c.cov.setdefault("carried_failing_by_container", {})
+            by[case["container"]] = by.get(case["container"], 0) + 1
+            if shown < 3:
+                shown += 1
+                small, f = shrink_carried(case, fails)
+                c.report("carried tax summary clause fails at %s of %s after %s calculation(s): %s (%s)" % (f[0], case["container"], small.get("rounds", 1), f[1], f[2]),
+                         {"stream": "carried", "case": small, "where": f[0], "clause": f[1], "all_failures": [list(x) for x in fails[:6]]})
+    c.cov["carried_status"] = status_counts
+    c.cov["carried_documents_with_failing_clause"] = nbad
+
+
+def shrink_carried(case, fails):
+    """greedy: fewer calculations, only the carried summary that fails, a single plain line, no document rows"""
+    import copy
+    import re
+    cur, f = case, fails[0]
+
+    def attempt(small):
+        r = run_carried([small])[0]
+        return (small, r[3][0]) if r[1] == "ok" and r[3] else None
+
+    def edits(x):
+        d = x["document"]
+        if x.get("rounds", 1) > 1:
+            yield ("rounds", None)
+        m = re.match(r"(preceding|lines)\[(\d+)\]", f[0])
+        if m and x["op"] == "carry" and len(d.get(m.group(1)) or []) > 1:
+            yield ("only", (m.group(1), int(m.group(2))))
+        if not d["$schema"].endswith("bill/payment"):
+            for k in ("discounts", "charges", "payment", "totals"):
+                if k in d:
+                    yield ("del", k)
+            if len(d.get("lines") or []) > 1:
+                yield ("one-line", None)
+            for k in ("discounts", "charges", "breakdown"):
+                if any(k in l for l in d.get("lines") or []):
+                    yield ("del-l", k)
+
+    for _ in range(12):
+        done = True
+        for kind, arg in list(edits(cur)):
+            small = copy.deepcopy(cur)
+            d = small["document"]
+            if kind == "rounds":
+                small["rounds"] = 1
+            elif kind == "only":
+                d[arg[0]] = [d[arg[0]][arg[1]]]
+            elif kind == "del":
+                del d[arg]
+            elif kind == "one-line":
+                d["lines"] = d["lines"][:1]
+            elif kind == "del-l":
+                for l in d["lines"]:
+                    l.pop(arg, None)
+            r = attempt(small)
+            if r:
+                cur, f = r
+                done = False
+                break
+        if done:
+            break
+    return cur, f
+
+
 def run(c):
     quick = c.tier == "quick"
     if not std_builds(c):
@@ -149,8 +493,10 @@ def run(c):
     docs += cg.boundary_pair_docs(c.rng, 150 if quick else 5000)
     shown = 0
     nbad = 0
+    allres = []
     for i in range(0, len(docs), 20000):
         res = cg.run3(docs[i:i + 20000])
+        allres += [r for r in res if len(allres) < 60000]
         c01.judge(c, res, "combo-focused", prop="C02")
         for r in res[:1]:
             c.sample({"document": r["doc"], "implementation": r["go_raw"][-400:]}, limit=3)
@@ -171,9 +517,18 @@ def run(c):
                     x = cg.run3([small])[0]
                     bad = judge_tax(small, x["go"][1], x["py"])
                     c.report("tax summary clause fails: %s (%s)" % bad[0], {"document": small, "implementation": x["go_raw"], "clause": bad[0][0], "all_failures": bad[:6]})
+    import time
+    t0 = time.time()
+    carried_stream(c, allres, quick)
+    c.cov["carried_seconds"] = round(time.time() - t0, 1)
     c.cov["rule"] = ("invoices with combo-rich rows: ordinary and retained categories, rate keys, explicit percents equal in value but different in precision, exempt vs 0 %, "
                      "surcharges, extension-qualified rates, per-combo country overrides, zero and negative totals, with and without an included category, both rules, ES/EL/PT; "
-                     "distinct non-trivial = distinct documents whose summary has at least two rate groups")
+                     "distinct non-trivial = distinct documents whose summary has at least two rate groups; "
+                     "carried summaries (streams carried-summary-clauses:*): the calculated summaries of a share of those documents, verbatim or with derived "
+                     "figures missing / stale / bases changed (currency's decimals or up to two more) / surcharges dropped or added, with and without a currency of their own, carried in preceding[].tax of invoices, orders and deliveries, in "
+                     "payment lines[].document.tax (and merged into the payment's tax), and copied by Invoice.Correct(copy_tax); calculated 1-3 times in one "
+                     "process and once more from the serialised result; the same clauses judged on every carried summary that comes out; "
+                     "distinct non-trivial there = distinct carrying documents with a surcharge or at least two groups in a carried summary")
     c.cov["documents_with_failing_clause"] = nbad
     if not proved:
         pr = c.proof
@@ -184,6 +539,13 @@ def run(c):
 def replay(path):
     r = json.load(open(path))["replay"]
     build_harness()
+    if r.get("stream") == "carried":
+        case, status, out, fails, raw = run_carried([r["case"]])[0]
+        print("implementation:", status, json.dumps(out)[:3000] if out else raw[:400])
+        for path_, tt, c_, k in (carried_summaries(case, out) if out else []):
+            print(path_, json.dumps(tt))
+        print("failing clauses:", fails)
+        return 0
     x = cg.run3([r["document"]])[0]
     print("implementation:", x["go_raw"])
     print("model:         ", x["model_raw"])
